@@ -90,6 +90,8 @@ class Subj(Renderable):
         d = render_data[Subj]
         d.fin += 1
         finalized.append(d.token)
+        if on_finalize is not None:
+            on_finalize()  # (a renderable releasing a resource: a system-call boundary)
         super()._finalize_render_data_(render_data)
 
     def _render_(self, render_data, render_args):
@@ -147,6 +149,7 @@ held = []
 live_tokens = {}
 created = []
 finalized = []
+on_finalize = None  # callable run by Subj's finalizer hook (C13)
 used_after_finalize = []
 
 
